@@ -52,6 +52,7 @@ void br_ssl_engine_switch_ccm_out(br_ssl_engine_context *cc, int is_client, int 
 void br_ssl_engine_switch_chapol_in(br_ssl_engine_context *cc, int is_client, int prf_id) { (void)cc; (void)is_client; (void)prf_id; }
 void br_ssl_engine_switch_chapol_out(br_ssl_engine_context *cc, int is_client, int prf_id) { (void)cc; (void)is_client; (void)prf_id; }
 void br_hmac_drbg_generate(br_hmac_drbg_context *ctx, void *out, size_t len) { (void)ctx; c05_need_w(out, len); }
+void br_ccopy(uint32_t ctl, void *dst, const void *src, size_t len) { (void)ctl; c05_need_r(src, len); c05_need_w(dst, len); }
 void br_multihash_zero(br_multihash_context *ctx) { (void)ctx; }
 void br_multihash_init(br_multihash_context *ctx) { (void)ctx; }
 void br_multihash_update(br_multihash_context *ctx, const void *data, size_t len) { (void)ctx; c05_need_r(data, len); }
@@ -77,6 +78,7 @@ static void c05_x_start_cert(const br_x509_class **ctx, uint32_t length) { (void
 static void c05_x_append(const br_x509_class **ctx, const unsigned char *buf, size_t len) { (void)ctx; c05_x_calls ++; c05_need_r(buf, len); }
 static void c05_x_end_cert(const br_x509_class **ctx) { (void)ctx; c05_x_calls ++; }
 static unsigned c05_x_end_chain(const br_x509_class **ctx) { (void)ctx; c05_x_calls ++; return ND_U32(); }
+static int c05_pkey_known;      /* the chain was validated: get_pkey returns the key */
 static const br_x509_pkey *
 c05_x_get_pkey(const br_x509_class *const *ctx, unsigned *usages)
 {
@@ -84,11 +86,17 @@ c05_x_get_pkey(const br_x509_class *const *ctx, unsigned *usages)
 	if (usages != 0) {
 		*usages = ND_U32();
 	}
-	if (ND_U8() & 1) {
+	if (!c05_pkey_known && (ND_U8() & 1)) {
 		return 0;
 	}
 	return &c05_pkey;
 }
+/* hash class seam (implementations registered in the multihash context) */
+static size_t c05_hlen;
+static void c05_h_init(const br_hash_class **hc) { (void)hc; }
+static void c05_h_update(const br_hash_class **hc, const void *data, size_t len) { (void)hc; c05_need_r(data, len); }
+static void c05_h_out(const br_hash_class *const *hc, void *dst) { (void)hc; c05_need_w(dst, c05_hlen); }
+static br_hash_class c05_hc;
 static const br_x509_class c05_x_vtable = { sizeof(br_x509_minimal_context), c05_x_start_chain, c05_x_start_cert,
 	c05_x_append, c05_x_end_cert, c05_x_end_chain, c05_x_get_pkey };
 static const br_x509_class *c05_x_obj = &c05_x_vtable;
@@ -186,6 +194,14 @@ c05_engine_env(br_ssl_engine_context *e)
 	if (ND_U8() & 1) { e->iec = &c05_ec; } else { e->iec = 0; }
 	if (ND_U8() & 1) { e->irsavrfy = c05_irsavrfy; } else { e->irsavrfy = 0; }
 	if (ND_U8() & 1) { e->iecdsa = c05_iecdsa; } else { e->iecdsa = 0; }
+	/* hash implementations: each of the six slots empty or a stub class with <= 64 output bytes
+	   (one common output length: the natives only rely on "<= 64") */
+	c05_hlen = ND_SIZE();
+	ASSUME(c05_hlen >= 1 && c05_hlen <= 64);
+	c05_hc.context_size = sizeof(br_sha512_context);
+	c05_hc.desc = (uint32_t)c05_hlen << BR_HASHDESC_OUT_OFF;
+	c05_hc.init = c05_h_init; c05_hc.update = c05_h_update; c05_hc.out = c05_h_out;
+	{ size_t i; for (i = 0; i < 6; i ++) { if (ND_U8() & 1) { e->mhash.impl[i] = &c05_hc; } else { e->mhash.impl[i] = 0; } } }
 	/* invariants of the engine fields the natives index with */
 	ASSUME(e->ecdhe_point_len <= sizeof e->ecdhe_point);
 	ASSUME(e->session.session_id_len <= sizeof e->session.session_id);
@@ -254,6 +270,11 @@ c05_env(T0N_CTXT *c)
 	}
 	if (OP == C05_OP_do_ecdh) {
 		ASSUME(c->eng.iec != 0);                 /* an EC suite was negotiated */
+	}
+	/* these words run after the server chain was validated: the validator returns the key */
+	if (OP == C05_OP_do_ecdh || OP == C05_OP_do_rsa_encrypt || OP == C05_OP_do_static_ecdh
+		|| OP == C05_OP_verify_SKE_sig || OP == C05_OP_set_server_curve) {
+		c05_pkey_known = 1;
 	}
 }
 #endif
@@ -337,6 +358,14 @@ c05_env(T0N_CTXT *c)
 	/* stated call-site preconditions */
 	if (OP == C05_OP_do_ecdhe_part1 || OP == C05_OP_do_ecdhe_part2) {
 		ASSUME(c->eng.iec != 0);                 /* an ECDHE suite was negotiated */
+	}
+	/* these words run after the client chain was validated */
+	if (OP == C05_OP_verify_CV_sig || OP == C05_OP_do_static_ecdh) {
+		c05_pkey_known = 1;
+	}
+	/* copy-hash-CV: hash identifier 0 (MD5+SHA-1) or 2..6, checked by the T0 code */
+	if (OP == C05_OP_copy_hash_CV) {
+		ASSUME(C05_TOP(0) == 0 || (C05_TOP(0) >= 2 && C05_TOP(0) <= 6));
 	}
 }
 #endif
